@@ -73,6 +73,14 @@ def to_dimacs_file(formula, fileorname=None,
             output.write(str(lit)+" ")
         output.write("0\n")
 
+DIMACS_BLANKS = ' \t\n\r\x0b\x0c'
+
+
+def dimacs_fields(line):
+    """Fields of a line of a DIMACS file, separated by (ASCII) blanks"""
+    return [f for f in re.split('[ \t\n\r\x0b\x0c]+', line) if f != '']
+
+
 def dimacs_int(text):
     """Value of an integer written in a DIMACS file
 
@@ -118,7 +126,9 @@ def parse_dimacs(infile):
     for line in infile.readlines():
 
         line_counter += 1
-        line = line.strip()
+        # (blanks are the ASCII ones: python would also take U+001C,
+        # U+0085, U+2028, ... as separators)
+        line = line.strip(DIMACS_BLANKS)
 
         # Empty line
         if len(line) == 0 or line[0] == 'c':
@@ -130,7 +140,7 @@ def parse_dimacs(infile):
                 raise ValueError(
                     "There is a another spec at line {}".format(line_counter))
             try:
-                p, fmt, nstr, mstr = line.split()
+                p, fmt, nstr, mstr = dimacs_fields(line)
                 if p != 'p' or fmt != 'cnf':
                     raise ValueError
                 n = dimacs_int(nstr)
@@ -150,7 +160,7 @@ def parse_dimacs(infile):
 
         # parse literals
         try:
-            for lv in [dimacs_int(lit) for lit in line.split()]:
+            for lv in [dimacs_int(lit) for lit in dimacs_fields(line)]:
                 if lv == 0:
                     clauses_count += 1
                     yield tuple(literal_buffer)
